@@ -38,6 +38,9 @@ type tncConn struct {
 	mu       sync.Mutex
 	buffer   int
 	nWritten int
+
+	// Received data not yet delivered by Read (when the caller's buffer was smaller than the frame).
+	rest []byte
 }
 
 // TODO: implement
@@ -53,20 +56,18 @@ func (conn *tncConn) Read(p []byte) (int, error) {
 		return 0, nil
 	}
 
-	data, ok := <-conn.dataIn
-	if !ok {
-		return 0, io.EOF
+	if len(conn.rest) == 0 {
+		data, ok := <-conn.dataIn
+		if !ok {
+			return 0, io.EOF
+		}
+		conn.rest = data
 	}
 
-	if len(data) > len(p) {
-		panic("too large") // TODO: Handle
-	}
+	n := copy(p, conn.rest)
+	conn.rest = conn.rest[n:]
 
-	for i, b := range data {
-		p[i] = b
-	}
-
-	return len(data), nil
+	return n, nil
 }
 
 func (conn *tncConn) Write(p []byte) (int, error) {
